@@ -188,7 +188,8 @@ Record st := mkst {
 Inductive ev :=
 | EvProd (choose_ret : bool)  (* producer step; the bit resolves the select when both cases are ready *)
 | EvRecv                      (* consumer: one receive *)
-| EvCancel.
+| EvCancel
+| EvSetOpt (nocopy : bool).   (* the user assigns ps.DecodeOptions.NoCopy (public field; read by NextPacket on every packet) *)
 
 Definition set_pc (s : st) (p : pc) : st :=
   mkst (t_cfg s) (t_src s) (t_mem s) p (t_chan s) (t_closed s) (t_cancel s) (t_recv s)
@@ -248,11 +249,16 @@ Definition step_cancel (s : st) : st :=
   mkst (t_cfg s) (t_src s) (t_mem s) (t_pc s) (t_chan s) (t_closed s) true (t_recv s)
        (t_seen_closed s) (t_reads s) (t_reads_ac s) (t_sends_ac s).
 
+Definition step_setopt (b : bool) (s : st) : st :=
+  mkst (mkcfg (p_zero (t_cfg s)) b) (t_src s) (t_mem s) (t_pc s) (t_chan s) (t_closed s) (t_cancel s) (t_recv s)
+       (t_seen_closed s) (t_reads s) (t_reads_ac s) (t_sends_ac s).
+
 Definition step (c : nat) (s : st) (e : ev) : st :=
   match e with
   | EvProd b => step_prod c b s
   | EvRecv => step_recv s
   | EvCancel => step_cancel s
+  | EvSetOpt b => step_setopt b s
   end.
 
 Definition run (c : nat) (s : st) (evs : list ev) : st := fold_left (step c) evs s.
@@ -261,7 +267,8 @@ Definition run (c : nat) (s : st) (evs : list ev) : st := fold_left (step c) evs
 Definition init (cfg : pcfg) (s : src) (buf : list Z) : st :=
   mkst cfg s [buf] PIdle [] false false [] false 0 0 0.
 
-(* packet.go:1024-1035 *)
+(* packet.go:1024-1035; callable any number of times, the guard is evaluated on every call
+   with the options as they are now *)
 Definition packets_ctx (s : st) : outcome st :=
   if p_nocopy (t_cfg s) && p_zero (t_cfg s) then Panic 1%Z
   else match t_pc s with
@@ -303,7 +310,8 @@ Definition measure (s : st) : nat :=
    One scheduler among all: before every action of the harness the producer has run as far
    as it can (the harness waits for that), reads are handed out by tokens. *)
 Inductive sop :=
-| SNext | SStart | SRestart | SGrant (n : nat) | SGrantAll | SRecv (n : nat) | SCancel | SFin | SFcan (n : nat).
+| SNext | SStart | SRestart | SGrant (n : nat) | SGrantAll | SRecv (n : nat) | SCancel | SFin | SFcan (n : nat)
+| SSetOpt (nocopy : bool).
 
 Inductive obs :=
 | ONextOk (p : pobs) | ONextErr (k : ekind) | ONextSkip
@@ -313,6 +321,7 @@ Inductive obs :=
 | ORecv (ps : list pobs) (closed : bool) (reads len : nat)
 | OFin (ps : list pobs) (closed : bool) (reads gor : nat) (final : list (list Z))
 | OFcan (closed : bool) (gor : nat)
+| OSetOpt
 | OOutOfFuel.
 
 Record sst := mksst {
@@ -429,6 +438,9 @@ Definition sstep (c : nat) (x : sst) (o : sop) : sst * obs :=
     let '(x3, _, cl) := recv_n c (S (measure (x_t x2))) x2 [] in
     let x4 := q c x3 in
     (x4, OFcan cl (gor (x_t x4)))
+  | SSetOpt b =>
+    let x1 := q c x in
+    (mksst (step_setopt b (x_t x1)) (x_tok x1) (x_deliv x1) (x_oof x1), OSetOpt)
   end.
 
 Fixpoint srun (c : nat) (x : sst) (ops : list sop) : list obs :=
